@@ -328,6 +328,7 @@ func genClassic(c *h.Ctx, r *h.Rng) promql.Buckets {
 	if r.Chance(60) {
 		ub = dyadic(r, 1, 8, 2)
 	}
+	dupOK := n <= 12 || (style != 3 && style != 5)
 	cum := 0.0
 	if style == 3 {
 		cum = float64(r.Range(1e11, 4e12)) // tiny relative deltas around the 1e-12 tolerance
@@ -364,7 +365,9 @@ func genClassic(c *h.Ctx, r *h.Rng) promql.Buckets {
 			c.Count("classic:special-count")
 		}
 		bs = append(bs, promql.Bucket{UpperBound: ub, Count: cnt})
-		if !r.Chance(12) { // else: duplicate upper bound
+		// slices.SortFunc is unstable beyond 12 elements: there, equal bounds are generated only with counts
+		// whose sums are exact (order-independent)
+		if !dupOK || !r.Chance(12) { // else: duplicate upper bound
 			ub += dyadic(r, 1, 12, 2)
 		} else {
 			c.Count("classic:dup-bound")
@@ -372,7 +375,7 @@ func genClassic(c *h.Ctx, r *h.Rng) promql.Buckets {
 	}
 	if n > 0 && r.Chance(88) {
 		bs[len(bs)-1].UpperBound = math.Inf(1)
-		if len(bs) > 2 && r.Chance(8) { // a duplicate +Inf bucket
+		if len(bs) > 2 && dupOK && r.Chance(8) { // a duplicate +Inf bucket
 			bs[len(bs)-2].UpperBound = math.Inf(1)
 		}
 	} else {
